@@ -48,6 +48,7 @@ def run(tier):
                 continue
             paging.check_write_port(rep, 'C08', label, fn, via, cls, is128)
     simfuncs.check_accept_interrupt(rep, 'C08', safety_only=True)
+    simfuncs.check_wf_establishment(rep, 'C08')
     simfuncs.report_failures(rep, 'C08')
     rep.extra['explanation'] = ('safety obligations (ROM guard, byte/register ranges, index bounds, T monotone, no overflow) generated at every '
                                'store/lookup site on every path of every dispatch slot of Simulator and CMIOSimulator (48K list memory and 128K Memory), '
